@@ -105,7 +105,7 @@ func c05History(c *ctxT, hid int, seed int64, perHist int, directed bool) {
 	r := c.R
 	rng := dRand(seed)
 	cfg := genPoolCfg(rng, false)
-	cfg.ERDMA, cfg.Trunk, cfg.Drift = false, false, false
+	cfg.ERDMA, cfg.Trunk, cfg.Drift, cfg.StrayTrunk, cfg.StrayERDMA = false, false, false, false, false
 	cfg.V4 = true
 	for i := range cfg.Pre {
 		if cfg.Pre[i] < 1 {
@@ -431,7 +431,15 @@ func c05Restart(c *ctxT, d *dHist, hid int, seed int64, idx int, img *c05Image) 
 		attachedMap[e.ID] = e
 	}
 	podResources = daemon.VerifFilterENINotFound(podResources, attachedMap)
-	pc := &tdaemon.PoolConfig{EnableIPv4: cfg.V4, EnableIPv6: cfg.V6, Capacity: cfg.Slots * cfg.Cap, MaxENI: cfg.Slots, MaxIPPerENI: cfg.Cap, BatchSize: cfg.Batch, MaxPoolSize: cfg.MaxIdle, MinPoolSize: cfg.MinIdle}
+	// a third of the restarts come up with a smaller per-interface limit than the one the addresses were taken
+	// under (configuration or instance limits changed): interfaces then hold more than the limit, the surplus idle
+	// addresses go, the acknowledged ones stay
+	rcap := cfg.Cap
+	if idx%3 == 1 {
+		rcap = max(1, cfg.Cap/2)
+		r.Count("restarts_with_smaller_per_interface_limit", 1)
+	}
+	pc := &tdaemon.PoolConfig{EnableIPv4: cfg.V4, EnableIPv6: cfg.V6, Capacity: cfg.Slots * rcap, MaxENI: cfg.Slots, MaxIPPerENI: rcap, BatchSize: cfg.Batch, MaxPoolSize: cfg.MaxIdle, MinPoolSize: cfg.MinIdle}
 	var nis []eni.NetworkInterface
 	for _, e := range attached {
 		nis = append(nis, eni.NewLocal(e, "secondary", img.Cloud, pc))
